@@ -51,6 +51,13 @@ Theorem C19_run_meets_spec : forall s, valid s = true -> spec s (run s) = true.
 Proof. exact run_meets_spec. Qed.
 Print Assumptions C19_run_meets_spec.
 
+(* the C++ methods MockSupport::return<T>ValueOrDefault / MockCheckedActualCall::return<T>ValueOrDefault are, in the source,
+   hasReturnValue() ? <the getter of T> : default -- the reading of "...OrDefault" that `denote` uses *)
+Theorem C19_cpp_or_default : forall r t, r <> RExp -> In t type_names ->
+  In (class_of r, or_default_name t, getter_name r t) cpp_or_default.
+Proof. exact cpp_or_default_is. Qed.
+Print Assumptions C19_cpp_or_default.
+
 (* the code before the repair b5ec8af (readers shared between the two tables) did not have the property *)
 Theorem C19_equiv_old_refuted : ~ equiv_old_stmt.
 Proof. exact equiv_old_refuted. Qed.
